@@ -5,6 +5,7 @@ import ast
 
 from .. import cfg as C
 from ..amatch import AM
+from ..flow import expand
 from ..report import AnalysisError
 from ..srcmodel import Cls, norm
 from ..state import StateAnalysis, attr_reads, own_exprs, self_attr
@@ -199,6 +200,11 @@ def rule_b(ctx):
                 n_read += 1
                 ctx.instance(R)
                 par = getattr(src, "_parent", None)
+                # the decoder keeps bit depth and channel count only with IMREAD_UNCHANGED (or ANYDEPTH | ANYCOLOR for images without alpha)
+                flag = norm(src.args[1]) if len(src.args) > 1 else next((norm(k.value) for k in src.keywords if k.arg == "flags"), "<default IMREAD_COLOR>")
+                lossless = flag in ("cv2.IMREAD_UNCHANGED", "-1", "cv2.IMREAD_ANYDEPTH | cv2.IMREAD_ANYCOLOR", "cv2.IMREAD_ANYCOLOR | cv2.IMREAD_ANYDEPTH")
+                ctx.ob(R, f.qname, f"`{norm(src.func)}` decodes with a flag that keeps bit depth and channels", lossless,
+                       f"flag {flag}: 16-bit data is reduced to 8 bit and/or grey data expanded to three channels", src)
                 # directly sanitised?
                 if isinstance(par, ast.Call) and norm(par.func) == "cv2.cvtColor" and len(par.args) > 1 and norm(par.args[1]) == "cv2.COLOR_BGR2RGB":
                     ctx.ob(R, f.qname, f"`{norm(src)[:50]}` is converted BGR->RGB", True, "direct", src)
@@ -419,6 +425,24 @@ def rule_e(ctx):
                 for dk, dv in zip(kk.value.keys, kk.value.values):
                     if isinstance(dk, ast.Constant):
                         written[(kk.arg, dk.value)] = dv
+        # configuration dicts produced by a method of the class (save writes config=self.return_config()): entries are attributes, verbatim
+        for kk in sv[0].keywords:
+            v = kk.value
+            if isinstance(v, ast.Call) and isinstance(v.func, ast.Attribute) and isinstance(v.func.value, ast.Name) and v.func.value.id == "self" and not v.args and not v.keywords:
+                meth = m.method(k, v.func.attr)
+                if meth is None:
+                    continue
+                rets = [r.value for r in ast.walk(meth.node) if isinstance(r, ast.Return) and r.value is not None]
+                if len(rets) == 1 and isinstance(expand(meth.node, rets[0]), ast.Dict):
+                    d = expand(meth.node, rets[0])
+                    for dk, dv in zip(d.keys, d.values):
+                        if not isinstance(dk, ast.Constant):
+                            continue
+                        n += 1
+                        ctx.instance(R)
+                        verb = isinstance(dv, ast.Constant) or (isinstance(dv, ast.Attribute) and isinstance(dv.value, ast.Name) and dv.value.id == "self")
+                        ctx.ob(R, meth.qname, f"{k.name}: configuration entry '{dk.value}' (saved under {kk.arg}) is an attribute of the object, verbatim", verb,
+                               f"`{norm(dv)[:90]}` is written: the loader re-derives its state from this value as if it were the constructor argument, so a converted value is converted twice", dv)
         env = {}
         for st in ast.walk(l.node):
             if isinstance(st, ast.Assign) and len(st.targets) == 1 and isinstance(st.targets[0], ast.Name):
